@@ -146,11 +146,31 @@ def branch_templates(ctx, rule):
         foreign = [c for c in atoms if not is_M(c) and not is_R(c)]
         if name == "strip_protocol":
             foreign = atoms
-        ctx.ob(rule, name + "/has-protocol-test", not foreign,
+
+        def proto_cells(name=name, ref=ref):
+            # the helper interpreted on the same (url class x protocol spelling) cells, extra spellings of each class included
+            from ..microeval import Raised
+            out = []
+            extra = {"no-protocol": ["lemonde.fr/login?next=https://abo.lemonde.fr/", "a.com"], "protocol-relative": ["//a.com"], "has-protocol": ["HTTP://a.com/x", "https://a.com/?u=b.org", "git://a.com/x", "P://a.com/x", "feed://www.a.com/rss"]}
+            for cname, m, r, rep in CLASSES:
+                for u in [rep] + extra[cname]:
+                    for proto in (("p", "p:", "p://") if name != "strip_protocol" else (None,)):
+                        try:
+                            got = run_function(repo, ref, [u] if proto is None else [u, proto])
+                        except Raised as e:
+                            got = "raises " + e.name
+                        if u == rep:
+                            exp = EXPECT[name][cname]
+                        else:
+                            tail = re.sub(r"^(?:[A-Za-z][A-Za-z0-9+.-]*:)?//", "", u) if cname != "no-protocol" else u
+                            exp = {"ensure_protocol": u if cname == "has-protocol" else "p://" + tail, "force_protocol": "p://" + tail, "strip_protocol": tail}[name]
+                        out.append(("%s(%r%s) -> %r" % (name, u, "" if proto is None else ", %r" % proto, got), got == exp))
+            return out
+        ctx.ob(rule, name + "/has-protocol-test", not foreign, cells=proto_cells, message=
                "%s decides with `%s` instead of the shared tests `PROTOCOL_RE.match(url)` / `url.startswith('//')`: it disagrees with its siblings on urls such as 'lemonde.fr/login?next=https://abo.lemonde.fr/' or 'HTTP://a.com'" % (name, "`, `".join(P.show(c, maxdepth=4) for c in foreign)),
-               site, witness="lemonde.fr/login?next=https://abo.lemonde.fr/")
+               site=site, witness="lemonde.fr/login?next=https://abo.lemonde.fr/")
         if name != "strip_protocol":
-            ctx.ob(rule, name + "/tests-the-shared-pattern", any(is_M(c) for c in atoms), "%s never tests PROTOCOL_RE.match(url)" % name, site)
+            ctx.ob(rule, name + "/tests-the-shared-pattern", any(is_M(c) for c in atoms), "%s never tests PROTOCOL_RE.match(url)" % name, site, cells=proto_cells)
         if foreign:
             n += 9 if name != "strip_protocol" else 3
             continue
@@ -311,13 +331,26 @@ def query_argument(ctx, rule):
     is_unq = lambda x: x[0] == "call" and x[1] == "urllib.parse.unquote"
     value_rets = [r for r in rets if r.term not in (("const", None), ("const", True))]
     ctx.require_instances(rule, len(value_rets), 1, "value-returning paths of get_query_argument")
+    gref = ut.func("get_query_argument")
+
+    def get_cells():
+        # writer then reader, interpreted: consulted only when a shape test below does not recognise the reader
+        out = []
+        for k, v in (("k", "v v"), ("k&", "v"), ("k k", "a&b=c"), ("k", "100%"), ("k=", "v"), ("k", None)):
+            url = run_function(repo, aref, ["http://a.com/x?z=1", k, v])
+            got = run_function(repo, gref, [url, k])
+            out.append(("get_query_argument(%r, %r) -> %r" % (url, k, got), got == (True if v is None else v)))
+        for url, k, want in (("http://a.com/x?a=1&b", "c", None), ("http://a.com/x", "a", None), ("http://a.com/x?a=1&a=2", "a", "1"), ("http://a.com/x?ab=1", "a", None)):
+            got = run_function(repo, gref, [url, k])
+            out.append(("get_query_argument(%r, %r) -> %r" % (url, k, got), got == want))
+        return out
     if wq:
         for r in value_rets:
             ctx.ob(rule, "get/unquotes-the-value", is_unq(r.term), "get_query_argument returns the stored value still percent-encoded (%s) although add_query_argument encoded it: 'v v' comes back as 'v%%20v'" % P.show(r.term, maxdepth=3),
-                   ut.site(r.node), witness="get_query_argument(add_query_argument(u, 'k', 'v v'), 'k')")
+                   ut.site(r.node), witness="get_query_argument(add_query_argument(u, 'k', 'v v'), 'k')", cells=get_cells)
             keycmp = [c for c, pol in r.conds if c[0] == "cmp" and c[1] == "Eq" and pol and ("param", "key") in (c[2], c[3])]
             ok = bool(keycmp) and all(is_unq(c[3]) or is_unq(c[2]) or any(x[0] == "call" and x[1] == "urllib.parse.quote" for x in P.subterms(c)) for c in keycmp)
-            ctx.ob(rule, "get/compares-unquoted-name", ok, "get_query_argument compares the key with the still-encoded stored name: a key containing '&' or a space is never found", ut.site(r.node), witness="get_query_argument(add_query_argument(u, 'k&', 'v'), 'k&')")
+            ctx.ob(rule, "get/compares-unquoted-name", ok, "get_query_argument compares the key with the still-encoded stored name: a key containing '&' or a space is never found", ut.site(r.node), witness="get_query_argument(add_query_argument(u, 'k&', 'v'), 'k&')", cells=get_cells)
     # separators of safe_qsl_iter: item-shape table shared with C01/C05
     from .common_url import rule_qsl
     rule_qsl(ctx, rule + "q")
